@@ -18,7 +18,7 @@ from .tlaparse import find_prints
 
 PATHS = ['to_string', 'mysql', 'postgresql', 'sqlite', 'mssql', 'oracle']
 STYLE = {'to_string': 'lib_sq', 'mysql': 'mysql', 'postgresql': 'std', 'sqlite': 'std', 'mssql': 'std', 'oracle': 'std'}
-POSITIONS = ['select', 'where', 'inlist', 'insert', 'update']
+POSITIONS = ['select', 'where', 'inlist', 'insert', 'update', 'neg', 'sub']
 BENIGN = 'zqz'
 TYPED = [0, 7, -3, 12345678901234567890, 1.5, -0.25, 1e-7, True, False, None,
          dt.date(2020, 2, 29), dt.datetime(2011, 1, 1, 10, 20, 30), dt.datetime(2011, 1, 1, 10, 20, 30, 123456)]
@@ -30,7 +30,7 @@ def s_of(codes):
 
 def build(pos, value):
     from mindsdb_sql.parser.ast import (Constant, NullConstant, Identifier, Select, BinaryOperation, Tuple, Insert,
-                                        Update)
+                                        Update, UnaryOperation)
     c = NullConstant() if value is None else Constant(value)
     if pos == 'select':
         c.alias = Identifier('c1')      # otherwise the renderer derives the column label from the value
@@ -46,6 +46,16 @@ def build(pos, value):
     if pos == 'update':
         return Update(table=Identifier('t'), update_columns={'c': c},
                       where=BinaryOperation('=', args=[Identifier('d'), Constant(1)]))
+    # a constant next to an operator sign: the literal must not fuse with it into another token (--, /*, */)
+    if pos == 'neg':
+        return Select(targets=[Identifier('a')], from_table=Identifier('t'),
+                      where=BinaryOperation('=', args=[Identifier('c'), UnaryOperation('-', args=[c])]))
+    if pos == 'sub':
+        return Select(targets=[Identifier('a')], from_table=Identifier('t'),
+                      where=BinaryOperation('=', args=[Identifier('c'), BinaryOperation('-', args=[Identifier('d'), c])]))
+    if pos == 'div':
+        return Select(targets=[Identifier('a')], from_table=Identifier('t'),
+                      where=BinaryOperation('=', args=[Identifier('c'), BinaryOperation('/', args=[Identifier('d'), c])]))
     raise ValueError(pos)
 
 
@@ -96,13 +106,24 @@ def _case(value_spec):
                 out.append((path, pos, 'structure-changed', s))
                 continue
             lit = s[len(pre):len(s) - len(suf)] if suf else s[len(pre):]
+            if fuses(pre, lit):
+                out.append((path, pos, 'fuses-with-operator', s))
+                continue
             out.append((path, pos, 'lit', lit))
     return out
+
+
+def fuses(pre, lit):
+    """The literal, written directly after the statement text before it, forms a comment marker with it."""
+    a, b = pre[-1:], lit.lstrip()[:1] if lit[:1] not in ' \t\n' else ''
+    return (a + b) in ('--', '/*', '*/') and lit[:1] not in ' \t\n'
 
 
 def judge_typed(value, lit, path):
     """Python oracle for non-string constants: does the literal read back as the value?"""
     t = lit.strip()
+    if t.startswith('(') and t.endswith(')'):
+        t = t[1:-1].strip()
     try:
         if value is None:
             return t.upper() == 'NULL'
@@ -144,6 +165,11 @@ def run(ctx):
             if status.startswith('exc:'):
                 ctx.violation('render-raises:%s:%s' % (path, status[4:]), 'rendering a constant raised: %s' % lit,
                               {'value': repr(value), 'path': path, 'position': pos}, pin=(key, status))
+                continue
+            if status == 'fuses-with-operator':
+                ctx.violation('literal-fuses-with-operator:%s' % path,
+                              'the literal is written directly after an operator sign and forms a comment marker with it',
+                              {'value': repr(value), 'path': path, 'position': pos, 'rendered': lit}, pin=(key, lit))
                 continue
             if status == 'structure-changed':
                 ctx.violation('structure-changed:%s' % path,
